@@ -48,11 +48,29 @@ def sqlite_only():
 def duckdb_only():
     return ["SELECT x.a FROM x SEMI JOIN y ON x.b = y.b", "SELECT x.a FROM x ANTI JOIN y ON x.b = y.b", "SELECT x.a FROM x SEMI JOIN y ON x.b = y.b AND y.c > 0",
             "SELECT x.a FROM x ANTI JOIN y ON x.b = y.b WHERE x.a > 0", "SELECT a FROM x WHERE a IS DISTINCT FROM b", "SELECT a FROM x WHERE a IS NOT DISTINCT FROM b",
-            "SELECT IF(a > b, a, b) AS v FROM x", "SELECT a FROM x INTERSECT ALL SELECT b FROM y", "SELECT a FROM x EXCEPT ALL SELECT b FROM y"]
+            "SELECT IF(a > b, a, b) AS v FROM x", "SELECT a FROM x INTERSECT ALL SELECT b FROM y", "SELECT a FROM x EXCEPT ALL SELECT b FROM y",
+            # rewrites that go through window functions on the way to SQLite
+            "SELECT a, b FROM x QUALIFY ROW_NUMBER() OVER (PARTITION BY a ORDER BY b) = 1",
+            "SELECT a, b FROM x QUALIFY ROW_NUMBER() OVER (PARTITION BY a ORDER BY b DESC NULLS FIRST) = 1",
+            "SELECT a, b FROM x QUALIFY ROW_NUMBER() OVER (PARTITION BY a ORDER BY b) = 1 AND COUNT(*) OVER (PARTITION BY a) > 1",
+            "SELECT a, b FROM x QUALIFY COUNT(*) OVER (PARTITION BY a) > 1 OR SUM(b) OVER (PARTITION BY a) = 2",
+            "SELECT a, b, ROW_NUMBER() OVER (PARTITION BY a ORDER BY b) AS rn FROM x QUALIFY rn = 1",
+            "SELECT x.a, y.c FROM x LEFT JOIN y ON x.b = y.b QUALIFY SUM(x.b) OVER (PARTITION BY x.a) = 2 OR ROW_NUMBER() OVER (PARTITION BY x.a ORDER BY x.b DESC, y.c) = 2",
+            "SELECT DISTINCT ON (a) a, b FROM x ORDER BY a, b DESC", "SELECT DISTINCT ON (a) a, b FROM x ORDER BY a NULLS FIRST, b NULLS FIRST",
+            "SELECT DISTINCT ON (a, b) a, b FROM x ORDER BY a, b", "SELECT q.a FROM (SELECT DISTINCT ON (a) a, b FROM x ORDER BY a, b) AS q WHERE q.b > 0"]
+
+
+def windows():
+    out = []
+    for w in ["ROW_NUMBER() OVER (PARTITION BY a ORDER BY b)", "ROW_NUMBER() OVER (ORDER BY a DESC, b)", "COUNT(*) OVER (PARTITION BY a)", "SUM(b) OVER (PARTITION BY a)",
+              "SUM(b) OVER (PARTITION BY a ORDER BY b)", "MAX(b) OVER ()", "MIN(b) OVER (PARTITION BY a ORDER BY b DESC NULLS LAST)", "COUNT(b) OVER (ORDER BY a NULLS FIRST, b NULLS LAST)"]:
+        out.append(f"SELECT a, b, {w} AS w FROM x")
+        out.append(f"SELECT q.a FROM (SELECT a, b, {w} AS w FROM x) AS q WHERE q.w = 1")
+    return out
 
 
 def programs(tier: str, seed: int):
-    out = [("expr", q) for q in expressions()] + [("order", q) for q in ordering()]
+    out = [("expr", q) for q in expressions()] + [("order", q) for q in ordering()] + [("window", q) for q in windows()]
     rel = [(f, q) for f, q in gen_rel.programs(tier, seed)]
     if tier == "quick":
         rnd = random.Random(seed)
